@@ -17,18 +17,22 @@ META = {
     "finishes, fails, future completes, job lost) and every instant: whatever has happened to a job on disk, the job belongs to a "
     "node all of whose predecessor nodes have only successful jobs (C15_precedence, C15_start_enabled); the dispatch log lists every "
     "job after all jobs of its predecessor nodes (C15_dispatch_order) and has no duplicates (C15_at_most_once); a body starts at most "
-    "once (C15_body_starts_once); the same for the synchronous loop of the debug worker with any set of failing bodies (C15_sync). "
+    "once (C15_body_starts_once); the same for the synchronous loop of the debug worker with any set of failing bodies (C15_sync), "
+    "which always ends (C17_sync_terminates); C15_precedence_interleaved is C15_precedence for the finer semantics in which bodies start, "
+    "finish and fail before every node.done / p.done read of a poll.  Documentation witnesses: the synchronous loop hands out the jobs beyond "
+    "max_concurrent on the next poll (C15_sync_hands_out_cut_jobs), a get_runnable_tasks that returned only newly runnable jobs would "
+    "lose them and spin forever (C15_new_only_loses_jobs). "
     "The model is tied to pydra/engine/submitter.py by running generated workflows under a controlled subclass of the "
     "ConcurrentFuturesWorker (real process pool, real lock files) while an in-loop controller plays seeded adversarial "
     "schedules, and comparing per loop iteration the runnable tasks, the dispatches, the pending futures and the NodeExecution "
     "tables with the Lean model replaying the recorded schedule; the debug worker's execution order is compared with runSync.",
-    "note": "Trusted: Lean kernel; hand-written model of Submitter/NodeExecution (Sched/Model.lean): a poll is atomic w.r.t. "
-    "environment moves (interleaving at poll granularity), dependence is at node granularity as in the code's live branch; "
+    "note": "Trusted: Lean kernel; hand-written model of Submitter/NodeExecution (Sched/Model.lean; Sched/Interleaved.lean for moves inside a poll): one update_status call is atomic w.r.t. "
+    "environment moves, dependence is at node granularity as in the code's live branch; "
     "the observer subclass of Submitter only logs; nested workflows are not modelled.",
     "rule": "case = (workflow graph of 2-6 nodes with splits / inherited splits / duplicate checksums, fail set, max_concurrent, recorded "
     "schedule); distinct by canonical JSON; non-trivial = >= 3 jobs and a schedule policy other than FIFO completion",
     "assumptions": [
-        "a poll (get_runnable_tasks) is atomic with respect to changes on disk",
+        "one NodeExecution.update_status call is atomic with respect to changes on disk (bodies may start, finish and fail before every node.done / p.done read of a poll: *_interleaved theorems); futures are reported complete between polls",
         "asyncio.wait(FIRST_COMPLETED) returns exactly the futures that are done; the process pool runs each submitted job once",
     ],
     "trusted": ["model of Submitter.expand_workflow(_async)/get_runnable_tasks and NodeExecution written by hand (Sched/Model.lean)"],
@@ -47,6 +51,9 @@ OBLIGATIONS = [
         "C15_later_round",
         "C15_sorted_is_topological",
         "C15_sync",
+        "C15_precedence_interleaved",
+        "C15_sync_hands_out_cut_jobs",
+        "C15_new_only_loses_jobs",
     )
 ]
 LEAN_TARGETS = ["PydraModel.Props.C15"]
